@@ -365,3 +365,26 @@ func freeRunLeg(r *ev.Run, prop string, n int) {
 	r.Set("free_running_traces", len(traces))
 	validateCtlTraces(r, prop, "free-running", traces, natt, nkeys, nil)
 }
+
+// apalacheLeg has Apalache discharge the inductive invariant of BrokerInd.tla (OneShell and
+// SameRequest for histories of any length).  A stall is noted, not a verdict.
+func apalacheLeg(r *ev.Run) {
+	dir, err := os.MkdirTemp(os.Getenv("VERIF_SCRATCH"), "apalache-")
+	if err != nil {
+		return
+	}
+	defer os.RemoveAll(dir)
+	t0 := time.Now()
+	cmd := exec.Command(filepath.Join(ev.Root(), "spec", "BrokerInd_apalache.sh"), dir)
+	out, err := cmd.CombinedOutput()
+	n := strings.Count(string(out), "The outcome is: NoError")
+	switch {
+	case err == nil && n == 2:
+		r.Set("apalache_inductive_invariant", fmt.Sprintf("BrokerInd.tla: Init => IndInv and IndInv /\\ Next => IndInv' discharged by Apalache for 4 attempts in flight, 2 IDs, 4 requests (%.0f s)", time.Since(t0).Seconds()))
+		r.Append("tlc_invariants_checked", "Apalache: BrokerInd IndInv (TypeOK Consistent KeysOfRequests OneShell SameRequest) inductive")
+	case strings.Contains(string(out), "outcome is: Error"):
+		r.Inconclusive("Apalache refutes the inductive invariant of BrokerInd.tla (a specification problem, not an implementation verdict):\n%s", out)
+	default:
+		r.Set("apalache_inductive_invariant", "not discharged in this run (tool stalled or unavailable): "+strings.TrimSpace(string(out)))
+	}
+}
